@@ -251,6 +251,18 @@ for it in range(npairs):
     Sh = compute_overlap(b0h, coords)
     back = oo.apply_conventions(oo.apply_conventions(Sh, b0, 0), b0, 1)
     if np.abs(back - S).max() > 1e-12 * max(1, np.abs(S).max()): fails.append((hist, "changing conventions does not permute and sign-flip rows and columns accordingly"))
+# translation far from the origin with exactly representable coordinates (the relative geometry is bit-identical):
+# two tight f shells 2^-9 bohr apart, moved by 2^10 and 2^20 bohr
+sh = [Shell(0, [3], ["p"], np.array([1.0e5]), np.array([[1.0]])), Shell(1, [3], ["c"], np.array([1.5e5]), np.array([[1.0]]))]
+bt = MolecularBasis(sh, HORTON2_CONVENTIONS, "L2")
+c0 = np.array([[0.0, 0.0, 0.0], [2.0 ** -9, -(2.0 ** -9), 2.0 ** -9]])
+S0 = compute_overlap(bt, c0)
+for t in (2.0 ** 10, 2.0 ** 20):
+    cases += 1
+    ct = c0 + np.array([t, t, -t])
+    assert np.array_equal(ct[1] - ct[0], c0[1] - c0[0])
+    dev = float(np.abs(compute_overlap(bt, ct) - S0).max())
+    if dev > 1e-12 * max(1.0, np.abs(S0).max()): fails.append((dict(shift=t, deviation=dev), "overlap changes under an exactly representable translation far from the origin (product center formed in absolute coordinates)")); break
 sig = {}
 for f in fails: sig.setdefault(f[1], f)
 print(json.dumps(dict(cases=cases, nfails=len(fails), kinds={k: repr(v)[:500] for k, v in sig.items()}), default=str))
